@@ -394,6 +394,12 @@ def judge(model, m, call, r, numeric, bump):
     rec.MergeFrom(bm)
     rec.MergeFrom(qm)
     rec.MergeFrom(pm)
+    # a REQUIRED field with explicit presence (proto3 optional) that the caller left unset is re-sent with its default by the rule
+    # the statement gives for required fields: on the wire "unset" and "explicitly default" coincide for it
+    for fd in refs.required_fields(rec.DESCRIPTOR):
+        if fd.has_presence and fd.type != FD.TYPE_MESSAGE and rec.HasField(fd.name) and not sent.HasField(fd.name) \
+                and getattr(rec, fd.name) == fd.default_value:
+            rec.ClearField(fd.name)
     if rec != sent:
         bad("reconstruction-differs", _msg_diff(sent, rec))
     # reply
